@@ -152,17 +152,15 @@ pub fn check_osc(c: &OscCase, st: &mut Stats) -> CheckResult {
         let s = if hz_len.map_or(false, |l| n >= l) { 0.0 } else { steps[(n % steps.len() as u64) as usize] };
         tol_acc += 2f64.powi(-52) * (phase + s);
         tiny_step |= s > 0.0 && s < f64::EPSILON;
-        match scaled_round(s) {
+        // only the fractional part of a step moves the wrapped phase; `s % 1.0` is exact in f64
+        match scaled_round(s % 1.0) {
             Some((v, ex)) => {
                 acc = (acc + (v & mask)) & mask;
                 if !ex {
                     inexact_steps += 1;
                 }
             }
-            None => {
-                // step >= 2^60: only the fractional part matters and a float that large has none
-                ensure!(s >= 1e15, "harness: unexpected unscalable step {}", s);
-            }
+            None => return Err("harness: a fractional part must be representable at 2^-64".into()),
         }
     }
     st.nt(step_max >= 1.0 || varying || c.frames > 100_000);
@@ -261,9 +259,10 @@ fn step_strategy(exact: bool) -> BoxedStrategy<f64> {
             4 => (0.0f64..0.5),
             2 => (0.0f64..3.0),
             1 => (1.0f64..1e12),
+            1 => (1e12f64..1e30),
             1 => (0.0f64..1e-9),
             1 => (1e-19f64..3e-16),
-            1 => proptest::sample::select(vec![0.0, 1.0, 0.5, 0.25, 440.0 / 44100.0, 1e-12, 1e12, 0.9999999999999999, 1.0000000000000002, 1e-17, 8.673617379884035e-19]),
+            1 => proptest::sample::select(vec![0.0, 1.0, 0.5, 0.25, 440.0 / 44100.0, 1e-12, 1e12, 0.9999999999999999, 1.0000000000000002, 1e-17, 8.673617379884035e-19, 9.3e18, 1e19, 1e20, 4503599627370497.5, 1e25]),
         ]
         .boxed()
     }
@@ -291,7 +290,7 @@ pub fn osc_strategy(max_frames: u64) -> impl Strategy<Value = OscCase> {
 pub fn run(ctx: &mut Ctx) {
     ctx.set_rule(
         "oscillators: (rate, frequency sequence (one value = ConstHz path, several = per-frame Hz path), number of frames, exact flag); rates from powers of two, 44100, 48000, 1, 1e-3, 1e9 and random; \
-         frequencies as steps hz/rate in [0, 1e12] incl. 0, >= rate, tiny (down to 1e-19, below 2^-52); exact regime = power-of-two rate (2^-4 .. 2^20) and dyadic steps, one case in five with every step k x 2^-64; runs up to 2000 frames plus long runs; noise: seeds 0, 1, 2^32, 2^63, u64::MAX - k and random; \
+         frequencies as steps hz/rate in [0, 1e30] (beyond 2^63) incl. 0, >= rate, tiny (down to 1e-19, below 2^-52); exact regime = power-of-two rate (2^-4 .. 2^20) and dyadic steps, one case in five with every step k x 2^-64; runs up to 2000 frames plus long runs; noise: seeds 0, 1, 2^32, 2^63, u64::MAX - k and random; \
          non-trivial: step >= 1, varying frequency, run > 1e5 frames (oscillators); boundary seed (noise)",
     );
     ctx.assume("the phase used by an oscillator is observed through an identically driven Phase signal (same code, same frequency sequence); exact regime: phase_n == frac(sum of steps) exactly; general: circular distance <= sum over the frames so far of 2^-52 x (phase + step), i.e. one ulp of each addition");
